@@ -111,7 +111,7 @@ class Chain:
         seq = ["leaf"] + (["enc"] if self.tlcp else []) + ["ca%d" % i for i in reversed(range(self.n_inter))] + (["root"] if include_root else [])
         return b"".join(X.pem("CERTIFICATE", self.certs[n]) for n in seq)
 
-    def write(self, dirpath, variant="asan"):
+    def write(self, dirpath, variant="asan", include_root=False):
         os.makedirs(dirpath, exist_ok=True)
         f = {}
 
@@ -121,7 +121,7 @@ class Chain:
                 fh.write(data)
             f[name.split(".")[0]] = p.encode()
         w("root.pem", X.pem("CERTIFICATE", self.certs["root"]))
-        w("chain.pem", self.chain_pem())
+        w("chain.pem", self.chain_pem(include_root=include_root))
         w("leafkey.pem", key_pem(*self.keys["leaf"], variant=variant))
         if self.tlcp:
             w("enckey.pem", key_pem(*self.keys["enc"], variant=variant))
